@@ -30,6 +30,11 @@ class C07(FCheck):
         kern_extra = {}
         if idx % 16 == 5:
             shape = "manyfiles-special"
+        forced_blocks = idx % 16 in (9, 10)
+        if forced_blocks:
+            # every seed gets the block driver with a single worker behind a full pool queue, once with whole-block transfers and
+            # once with short ones (these were drawn at random before and seed 1 happened to have neither)
+            shape = "manyblocks"
         ops = [gen.d_op("src")]
         if shape == "specials":
             ops = gen.small_tree(r, "src", nfiles=r.randrange(0, 4), links=True, specials=True, sizes=lambda rr: gen.boundary_size(rr, bs, cap=cap), bs=bs)
@@ -41,7 +46,9 @@ class C07(FCheck):
         elif shape == "manyblocks":
             bs = r.choice([4096, 1000])
             workers = r.choice([1, 1, 2, workers])
-            if r.random() < 0.6:
+            if forced_blocks:
+                driver, workers = "parblock", 1
+            if (idx % 16 == 10) if forced_blocks else (r.random() < 0.6):
                 # this kernel moves fewer bytes per call than a block: every block job sees short counts while the pool queue is full
                 kern_extra = {"max_io": r.choice([bs // 2, bs - 1, 512])}
             for i in range(r.randrange(1, 3)):
